@@ -176,7 +176,10 @@ PtyTerminate(st, force) == {PTerminate(st, force)}
 PtyClose(st, force) ==
   LET p == PClose(st, force) IN
   IF p.r = "None"
-  THEN LET a == IF "close-no-refresh" \in Devs THEN R(p.st, "False") ELSE PIsAlive(p.st)
+  THEN LET a == IF "close-no-refresh" \in Devs     \* (sensitivity only) what ptyprocess learnt is not copied
+                THEN R([p.st EXCEPT !.term = st.term, !.obs = st.obs, !.es = st.es, !.ss = st.ss,
+                                    !.sk = st.sk, !.sv = st.sv], "False")
+                ELSE PIsAlive(p.st)
        IN {R([a.st EXCEPT !.fdv = "m1", !.closed = TRUE], "None")}
   ELSE IF p.r = "ExceptionPexpect"
   THEN \* the child could not be terminated; the descriptor is gone all the same, and the
